@@ -11,7 +11,7 @@ root = "/tmp/mut"
 tag = "m"
 if args and args[0].startswith("--root="):
     root = args[0].split("=", 1)[1]
-    tag = {"mut3": "r3m", "mut4": "r4m", "mut5": "r5m"}.get(os.path.basename(root.rstrip("/")), "r2m")
+    tag = {"mut3": "r3m", "mut4": "r4m", "mut5": "r5m", "mut6": "r6m"}.get(os.path.basename(root.rstrip("/")), "r2m")
     args = args[1:]
 for pid in args:
     base = f"{root}/{pid}"
